@@ -44,6 +44,10 @@
 (*       (repaired by patches/C05; kept for the negative model run)        *)
 (*   F7  a stream that ends at a frame boundary is a clean end             *)
 (*   F8  the all-nodes fan-out discards per-node errors                    *)
+(*   MTL a statement run by the query engine (kind "query": MapType, then  *)
+(*       CreateIterator) whose MapType failed on every group gets the type *)
+(*       "unknown" for its field (MapType cannot report an error) and the  *)
+(*       engine answers with an empty result without creating iterators    *)
 (***************************************************************************)
 EXTENDS Integers, Sequences, FiniteSets, TLC
 
@@ -53,9 +57,9 @@ CONSTANTS Nodes,         \* data nodes (strings)
           StreamFaults,  \* remote fault classes explored for kind "select"
           CallFaults,    \* remote fault classes explored for kinds "cost" and "meta"
           LocalFaults,   \* fault classes of the coordinator's own store: subset of {"up","errReply"}
-          Kinds,         \* subset of {"select","cost","meta"}
+          Kinds,         \* subset of {"select","query","cost","meta"}
           MinRF, MaxRF,  \* bounds on the number of owners of a shard
-          Dev            \* enabled deviations: subset of {"F6","F7","F8"}
+          Dev            \* enabled deviations: subset of {"F6","F7","F8","MTL"}
 
 Shards == 1..NShards
 
@@ -86,7 +90,11 @@ vars == <<owners, coord, fault, kind, phase, assign, ops, opOn, gst, plan, issue
 AllFaults == {"up", "dialFail", "errReply", "stall", "cutMid", "cutFrame", "stallMid"}
 OwnerSets == {S \in SUBSET Nodes : Cardinality(S) >= MinRF /\ Cardinality(S) <= MaxRF}
 
-OpsOf(k) == IF k = "select" THEN <<"FD", "MT", "CI">> ELSE IF k = "cost" THEN <<"IC">> ELSE <<>>
+\* "select": the three operations of a select driven one by one; "query": what query.Select does for
+\* "SELECT value FROM m" (no wildcard: no FieldDimensions)
+OpsOf(k) == IF k = "select" THEN <<"FD", "MT", "CI">> ELSE IF k = "query" THEN <<"MT", "CI">>
+            ELSE IF k = "cost" THEN <<"IC">> ELSE <<>>
+Streams(k) == k \in {"select", "query"}
 
 NoPlan == [n \in Nodes |-> {}]
 Groups == {assign[s] : s \in Shards} \ {coord}          \* remote groups, named by their original node
@@ -127,7 +135,7 @@ Init ==
   /\ kind \in Kinds
   /\ coord \in Coords
   /\ owners \in [Shards -> OwnerSets]
-  /\ \E fl \in LocalFaults, fr \in [Nodes \ {coord} -> (IF kind = "select" THEN StreamFaults ELSE CallFaults)] :
+  /\ \E fl \in LocalFaults, fr \in [Nodes \ {coord} -> (IF Streams(kind) THEN StreamFaults ELSE CallFaults)] :
         fault = [n \in Nodes |-> IF n = coord THEN fl ELSE fr[n]]
   \* a node that owns nothing is never contacted by select/cost: its fault is irrelevant
   /\ \A n \in Nodes \ {coord} : (kind # "meta" /\ \A s \in Shards : n \notin owners[s]) => fault[n] = "up"
@@ -144,7 +152,7 @@ Init ==
 
 \* ---- select / cost -------------------------------------------------------
 Map ==
-  /\ phase = "map" /\ kind \in {"select", "cost"}
+  /\ phase = "map" /\ kind \in {"select", "query", "cost"}
   /\ \E a \in [Shards -> Nodes] : ValidAssign(a) /\ assign' = a
   /\ phase' = "op"
   /\ UNCHANGED <<scen, ops, opOn, gst, plan, issued, failed, dirty, rounds, metaCalled, metaOK, reads, servers,
@@ -202,19 +210,24 @@ OpEnd ==
   /\ LET o == Head(ops)
          groupFail == \E g \in Groups : gst[g] = "fail"
          \* influxql.FieldMapper.MapType has no error result: a failure is dropped
-         err == o # "MT" /\ (LocalFails(o) \/ groupFail) IN
+         err == o # "MT" /\ (LocalFails(o) \/ groupFail)
+         \* the query engine builds no iterator for a field whose type nobody could tell
+         noType == kind = "query" /\ o = "MT" /\ LocalShards = {} /\ \A g \in Groups : gst[g] = "fail" IN
      /\ mtLost' = (mtLost \/ (o = "MT" /\ groupFail))
      /\ opOn' = FALSE
-     /\ IF err
-        THEN /\ outcome' = "error" /\ phase' = "done" /\ UNCHANGED <<ops, reads, servers>>
+     /\ IF err \/ (noType /\ "MTL" \notin Dev)
+        THEN /\ outcome' = "error" /\ phase' = "done" /\ UNCHANGED <<ops, reads, servers, taint>>
+        ELSE IF noType
+        THEN /\ outcome' = "success" /\ phase' = "done" /\ taint' = taint \cup {"MTL"}   \* empty result
+             /\ UNCHANGED <<ops, reads, servers>>
         ELSE IF Len(ops) > 1
-        THEN /\ ops' = Tail(ops) /\ UNCHANGED <<outcome, phase, reads, servers>>
-        ELSE IF kind = "select"
-        THEN /\ phase' = "stream" /\ UNCHANGED <<ops, outcome, reads, servers>>
+        THEN /\ ops' = Tail(ops) /\ UNCHANGED <<outcome, phase, reads, servers, taint>>
+        ELSE IF Streams(kind)
+        THEN /\ phase' = "stream" /\ UNCHANGED <<ops, outcome, reads, servers, taint>>
         ELSE \* cost: the sum of the replies is the result
              /\ reads' = CountReads(Contribs) /\ servers' = WhoReads(Contribs)
-             /\ outcome' = "success" /\ phase' = "done" /\ UNCHANGED ops
-  /\ UNCHANGED <<scen, assign, gst, plan, issued, failed, dirty, rounds, metaCalled, metaOK, swallowed, taint>>
+             /\ outcome' = "success" /\ phase' = "done" /\ UNCHANGED <<ops, taint>>
+  /\ UNCHANGED <<scen, assign, gst, plan, issued, failed, dirty, rounds, metaCalled, metaOK, swallowed>>
 
 \* Draining the merged iterator.  A stream cut at a frame boundary delivered k < all of its points.
 Drain ==
@@ -307,7 +320,7 @@ C05_ErrorReplySurfaces == taint = {} => swallowed = {}
 C05_ErrorReplySurfacesStrict == swallowed = {}
 
 \* a dropped MapType failure is always followed by an error of the statement (static faults)
-C05_MapTypeFailureCovered == (Done /\ mtLost) => outcome = "error"
+C05_MapTypeFailureCovered == (Done /\ mtLost /\ taint = {}) => outcome = "error"
 
 \* fail-over at request time works: with request-time faults only, a healthy coordinator and one live owner
 \* per shard the statement succeeds
